@@ -64,7 +64,7 @@ const samLine = "%s\t%d\tchr1\t%d\t60\t4M\t=\t%d\t0\tACGT\t%s"
 
 // corpus returns the well-formed inputs of a format: size = "small" (8-14 bytes, LF only),
 // "medium" (40-200 bytes), "large" (one file of about 9 KiB crossing the 4096-byte buffers twice),
-// "longline" (a line of 5000+ bytes), "vocab" (placeholder tokens at the start of every text field).
+// "longline" (a line of 5000+ bytes), "vocab" (placeholder tokens at the start of every text field), "ext" (standard syntax the library does not support).
 func corpus(format, size string) [][]byte {
 	corpusMu.Lock()
 	defer corpusMu.Unlock()
@@ -194,6 +194,22 @@ func buildCorpus(format, size string) [][]byte {
 			case "newick":
 				out = append(out, "('"+w+"':1,'"+v+"':2)'"+w+"';\n('"+v+"');\n(last);\n")
 			}
+		}
+	case "fasta/ext", "fastq/ext", "sam/ext", "samh/ext", "bed/ext", "newick/ext":
+		// Syntax that is standard in the wider format family but that this library does not (yet)
+		// support: comments, track lines, multi-line records, placeholder values. Most of these inputs are
+		// ill-formed for the pinned tree; the delivery, fault and stop properties hold for ill-formed
+		// inputs too, and a reader that starts to give such syntax a meaning must keep them.
+		out = map[string][]string{
+			"newick": {"[c](a,b);", "(a,b);[between trees](c);", "(a[c],b);", "(a,b)[c];", "(a,b);[at the end]", "(a:1[&x=1],b);", "[a;b](c);(d);", "(a,b);\n[multi\nline]\n(c);\n", "(a,b);[never closed (c);"},
+			"fasta":  {";comment\n>a\nAC\n", ">a\n;c\nAC\n>b\nG\n", ">a\nAC*\n>b\nG\n", ">a\nAC\n\n;end\n", ">a desc\nAC-GT\n>b\n\n>c\nA\n", "#c\n>a\nAC\n"},
+			"fastq":  {"@a\nAC\nGT\n+\nIIII\n@b\nA\n+\nI\n", "@a\nAC\n+\nII\n\n\n@b\nA\n+\nI\n", "@a\nAC\n+\n*\n@b\nA\n+\nI\n", "@a\nAC\n+\n\n@b\nA\n+\nI\n", "#c\n@a\nA\n+\nI\n", "@a\nA\n+\nI\n\n"},
+			"sam":    {"#comment\nq\t0\tr\t1\t9\t1M\t*\t0\t0\tA\tI\n", "@HD\tVN:1.6\n\n\nq\t0\tr\t1\t9\t1M\t=\t0\t0\t*\t*\n", "q\t0\tr\t1\t9\t1M\t*\t0\t0\tA\tI\tXB:B:c,1,2\nq2\t0\tr\t1\t9\t*\t*\t0\t0\tA\tI\n", "q 0 r 1 9 1M * 0 0 A I\nq\t0\tr\t1\t9\t1M\t*\t0\t0\tA\tI\n", "q\t0\tr\t1\t9\t1M\t*\t0\t0\tA\tI\t\nq\t0\tr\t1\t9\t1M\t*\t0\t0\tA\tI\n"},
+			"bed":    {"track name=x\nc\t0\t1\n", "browser position chr1:1-2\nc\t0\t1\n", "c 0 1\nd\t0\t1\n", "c\t0\t1\t.\t.\t.\nd\t0\t1\tn\t0\t+\n", "c\t0\t1\n\n#c\n\nd\t2\t3\n", "c\t0\t1\tn\t0\t.\t.\t.\t.\n", "c\t0\t1\tn\t0\t+\t0\t0\t0\n"},
+		}[strings.TrimSuffix(format, "h")]
+		if format == "samh" {
+			out = map[string][]string{}["x"]
+			out = []string{"#comment\n@CO\tx\nq\t0\tr\t1\t9\t1M\t*\t0\t0\tA\tI\n", "@HD\tVN:1.6\n\n\n@CO\n@\nq\t0\tr\t1\t9\t1M\t=\t0\t0\t*\t*\n", "@CO\tc\r\n@SQ\tSN:x\rLN:5\nq\t1\n"}
 		}
 	default:
 		panic("no corpus " + format + "/" + size)
